@@ -634,4 +634,8 @@ def listing(draw, n, m):
         "bond_order": draw(perms(m)),
         "flips": draw(bool_list(m)),
         "keys": draw(unique_keys(n)),
+        # what happens to the constructed graph before it is handed to the library: nothing,
+        # a relabelling that leaves the iteration order alone (labels != positions), or a
+        # first canonicalization whose output (labels != positions) is used as the description
+        "post": draw(st.sampled_from(["none", "none", "relabel", "recanon"])),
     }
